@@ -129,7 +129,8 @@ pub struct Endpoint {
 /// move every event already delivered to the application side of `dc` into `log` (never blocks)
 fn drain_channel(dc: &Arc<DataChannel>, log: &Arc<Mutex<Vec<(u16, DataChannelEvent)>>>) {
     use futures::FutureExt;
-    while let Some(Some(ev)) = dc.recv().now_or_never() {
+    // `unconstrained`: tokio's cooperative budget would otherwise make `recv` report Pending after 128 events
+    while let Some(Some(ev)) = tokio::task::unconstrained(dc.recv()).now_or_never() {
         log.lock().push((dc.id, ev));
     }
 }
@@ -340,6 +341,8 @@ pub async fn run_case(c: &Case, port_base: u16) -> Outcome {
     let has_phase1 = c.msgs.iter().any(|m| m.phase == 1);
     let mut sender_handles: Vec<tokio::task::JoinHandle<()>> = vec![];
     let mut last_activity = Instant::now();
+    let mut last_progress = Instant::now();
+    let mut progress_mark = (0usize, 0u32, 0u32, 0u32, 0u32);
     let mut connected = false;
     let total_expected: usize = c.msgs.len();
     use rustrtc::transports::sctp::SctpState;
@@ -426,7 +429,10 @@ pub async fn run_case(c: &Case, port_base: u16) -> Outcome {
             continue;
         }
         if done { break; }
-        if t0.elapsed() > c.deadline { break; }
+        // give up at the deadline only if nothing has progressed for a while (a loaded machine is slow, not stalled)
+        let mark = (delivered, sa.next_tsn, sb.next_tsn, sa.cumulative_tsn_ack, sb.cumulative_tsn_ack);
+        if mark != progress_mark { progress_mark = mark; last_progress = Instant::now(); }
+        if t0.elapsed() > c.deadline && (last_progress.elapsed() > Duration::from_secs(4) || t0.elapsed() > 4 * c.deadline) { break; }
         tokio::time::sleep(Duration::from_millis(1)).await;
     }
     for h in &sender_handles { h.abort(); }
